@@ -423,6 +423,11 @@ ApplyAt(st0, idx, c) ==
     [] c.t = "txn"   -> ApplyTxn(st, idx, c)
     [] OTHER         -> [st |-> st, res |-> Err]
 
+\* A commit can still fail after every operation of the command succeeded: the change events are generated
+\* inside the commit, before the memdb commit (state/memdb.go txn.Commit).  The command then reports an error and
+\* NOTHING of it may remain (C05: all or nothing, also at this fault point).
+CommitFails(st0) == [st |-> st0, res |-> Err]
+
 ---------------------------------------------------------------------------
 ---------------------------------------------------------------------------
 (* state properties (C03, C04) ; evaluated on model states and on IMPLEMENTATION states *)
